@@ -211,9 +211,10 @@ type ctx struct {
 	coll  *collector
 	stall time.Duration
 
-	mu       sync.Mutex
-	outcomes map[string]bool
-	observed map[string]int64 // not asserted: filter/analyzer tokens whose offsets leave the input
+	mu           sync.Mutex
+	outcomes     map[string]bool
+	observed     map[string]int64 // not asserted: filter/analyzer tokens whose offsets leave the input
+	searchErrors map[string]string
 }
 
 func (c *ctx) outcome(keys map[string]bool) {
@@ -838,7 +839,7 @@ func checkFragment(frag string, mk markup, values []string, locs [][]tloc, appli
 			return "", "", nmarks // some element changes length under the char filters: only no-panic applies
 		}
 	}
-	sliceOf := false
+	sliceOf, okSomewhere := false, false
 	var why string
 	for vi, v := range values {
 		acc := acceptable(locs[vi])
@@ -875,12 +876,15 @@ func checkFragment(frag string, mk markup, values []string, locs [][]tloc, appli
 			if ok {
 				// not asserted (the statement is silent about it): the separator is emitted
 				// exactly when the fragment does not touch that end of the value
-				if cutL != (o != 0) || cutR != (o+len(plain) != len(v)) {
-					return "", "separator", nmarks
+				if cutL == (o != 0) && cutR == (o+len(plain) != len(v)) {
+					return "", "", nmarks
 				}
-				return "", "", nmarks
+				okSomewhere = true
 			}
 		}
+	}
+	if okSomewhere {
+		return "", "separator", nmarks
 	}
 	if !sliceOf {
 		return "fragment-not-a-slice-of-stored-value", fmt.Sprintf("fragment %q stripped to %q is not a contiguous piece of %q", frag, plain, values), nmarks
@@ -1263,15 +1267,16 @@ func storedValues(v interface{}) []string {
 	return nil
 }
 
-func (c *ctx) phaseSearch(analyzers []hlAnalyzer, engines []bx.Engine, words, seps []string, hls []hl, extraEngine map[string]bool) {
+func (c *ctx) phaseSearch(analyzers []hlAnalyzer, engines []bx.Engine, words, seps []string, hls, hls2 []hl, extraEngine map[string]bool) {
 	r := c.r
 	docs := hlDocs(words, seps)
 	qs := hlQueries()
 	r.Note("highlight_search_family", map[string]any{"documents": len(docs), "words": fmt.Sprintf("%q", words), "separators": fmt.Sprintf("%q", seps),
-		"queries": len(qs), "highlighters": hls, "analyzers": len(analyzers)})
+		"queries": len(qs), "highlighters": hls, "highlighters_on_second_engine": hls2, "analyzers": len(analyzers)})
 	type item struct {
 		a   hlAnalyzer
 		eng bx.Engine
+		hls []hl
 	}
 	var items []item
 	for _, a := range analyzers {
@@ -1279,7 +1284,11 @@ func (c *ctx) phaseSearch(analyzers []hlAnalyzer, engines []bx.Engine, words, se
 			if ei > 0 && extraEngine != nil && !extraEngine[a.name] {
 				continue
 			}
-			items = append(items, item{a, e})
+			if ei == 0 {
+				items = append(items, item{a, e, hls})
+			} else {
+				items = append(items, item{a, e, hls2})
+			}
 		}
 	}
 	r.ParFor(len(items), 0, func(k int) {
@@ -1329,7 +1338,7 @@ func (c *ctx) phaseSearch(analyzers []hlAnalyzer, engines []bx.Engine, words, se
 			return fmt.Sprintf("terminates:highlight-search:%s", it.a.name), d, map[string]any{"engine": it.eng.Name, "field_analyzer": it.a.name, "step": d}
 		}, func(prog *atomic.Int64) {
 			out := map[string]bool{}
-			var n, checked, skipped, nfr, sepOdd int64
+			var n, checked, skipped, nfr, sepOdd, nerr int64
 			step := int64(0)
 			cur.Store("indexing documents")
 			prog.Store(step)
@@ -1366,7 +1375,7 @@ func (c *ctx) phaseSearch(analyzers []hlAnalyzer, engines []bx.Engine, words, se
 				return
 			}
 			for qi, q := range qs {
-				for hi, h := range hls {
+				for hi, h := range it.hls {
 					if r.Expired() {
 						r.Cap("deadline: highlighting through Search stopped early for analyzer " + it.a.name)
 						break
@@ -1402,9 +1411,13 @@ func (c *ctx) phaseSearch(analyzers []hlAnalyzer, engines []bx.Engine, words, se
 						continue
 					}
 					if err != nil {
-						c.coll.add(fmt.Sprintf("error:highlight-search:%s", it.a.name), okey{0, k, qi*100 + hi}, "", func() (string, any) {
-							return fmt.Sprintf("Search with highlighting (analyzer %s, %s, query %s, style %s): error %v", it.a.name, it.eng.Name, q.name, h.name, err), replayOf(q, h, nil)
-						})
+						// the statement is about panics, not errors: recorded, not alarmed
+						nerr++
+						c.mu.Lock()
+						if len(c.searchErrors) < 12 {
+							c.searchErrors[fmt.Sprintf("%s|%s|%s", it.eng.Name, it.a.name, q.name)] = err.Error()
+						}
+						c.mu.Unlock()
 						out["hl|error"] = true
 						n++
 						continue
@@ -1475,6 +1488,9 @@ func (c *ctx) phaseSearch(analyzers []hlAnalyzer, engines []bx.Engine, words, se
 			r.Count("fragments_returned", nfr)
 			r.Count("fragments_checked_against_stored_value", checked)
 			r.Count("fragments_where_only_no_panic_applies(length-changing analysis)", skipped)
+			if nerr > 0 {
+				r.Count("observed_not_asserted:searches_returning_an_error", nerr)
+			}
 			if sepOdd > 0 {
 				r.Count("observed_not_asserted:fragments_whose_separators_disagree_with_their_position", sepOdd)
 			}
@@ -1491,7 +1507,7 @@ func (c *ctx) phaseSearch(analyzers []hlAnalyzer, engines []bx.Engine, words, se
 
 func Run(r *mc.Run) {
 	c := &ctx{r: r, coll: &collector{m: map[string]*vent{}}, stall: mc.Pick(r, 25*time.Second, 60*time.Second),
-		outcomes: map[string]bool{}, observed: map[string]int64{}}
+		outcomes: map[string]bool{}, observed: map[string]int64{}, searchErrors: map[string]string{}}
 
 	r.Rule("E2. (A) every analyzer, tokenizer, token filter (on the output of each driver tokenizer) and char filter found in the registry at run time — components needing a configuration get the minimal ones listed under components_built — × every string of ≤ L symbols over the 14-symbol alphabet (see alphabet, string_length_bound_by_kind) plus long-token/repeated patterns: no panic, terminates, tokenizers satisfy 0 ≤ Start ≤ End ≤ len(input), starts non-decreasing, positions ≥ 1 and non-decreasing. (B) every registered highlighter and every formatter × fragment size {1,2,5}, driven directly on every short stored value × every single term location (also cutting runes, also up to 2 bytes beyond the value) and every pair of in-range locations: no panic. (C) real indexes whose field analyzer is a registered analyzer or one of 12 custom ones × all 3-word documents over a word alphabet (multi-byte words, '<b>', '&', apostrophe, camel case, empty word, invalid byte) × separators, array values, long texts × 18 queries × highlighters {html, ansi} × fragment sizes: no panic; where the char filters keep the length of the stored value, each fragment with separator, markup and escaping removed is a contiguous slice of the stored value placed consistently with the separators, every marked span is the bytes of a reported location (or the union of overlapping ones), and for analyzers that only split / drop / case-fold the marked text is the matched term. An outcome is (component kind, token-count bucket | char-filter length change | highlighter, fragment size, fragments, marks).")
 	r.Assume(
@@ -1507,7 +1523,7 @@ func Run(r *mc.Run) {
 	drivers := []string{"unicode", "single", "web"}
 	if !quick {
 		maxLen = map[string]int{"analyzer": 4, "tokenizer": 5, "token_filter": 4, "char_filter": 5}
-		drivers = []string{"unicode", "whitespace", "single", "web", "letter"}
+		drivers = []string{"unicode", "whitespace", "single", "web"}
 	}
 	r.Sample(map[string]any{"phase": "A", "component": "token_filter reverse on tokenizer unicode", "input": "a\xc3é", "oracle": "no panic"})
 	r.Sample(map[string]any{"phase": "A", "component": "tokenizer exception{exceptions:[a-B,[0-9]'],tokenizer:unicode}", "input": "1'日", "oracle": "0≤Start≤End≤5, starts and positions non-decreasing, positions ≥ 1"})
@@ -1541,15 +1557,33 @@ func Run(r *mc.Run) {
 		r.Note("highlight_named_analyzers_left_to_thorough_tier", left)
 	}
 	analyzers := append(named, customHL...)
-	words := mc.Pick(r, []string{"x", "y", "xy", "é", "<b>", "a'b", ""}, []string{"x", "y", "xy", "é", "日本", "<b>", "&", "a'b", "", "xY", "éaB", "\xff"})
-	seps := mc.Pick(r, []string{" ", ", "}, []string{" ", "  ", ", ", "\n"})
-	hls := searchHighlighters(r, mc.Pick(r, []int{1, 4}, []int{1, 4, 11}))
+	words := mc.Pick(r, []string{"x", "y", "xy", "é", "日本", "<b>", "&", "a'b", ""}, []string{"x", "y", "xy", "é", "日本", "<b>", "&", "a'b", "", "éaB", "\xff"})
+	seps := mc.Pick(r, []string{" ", ", "}, []string{" ", ", ", "\n"})
+	all := searchHighlighters(r, []int{1, 4, 11})
+	pick := func(names ...string) []hl {
+		var o []hl
+		for _, h := range all {
+			for _, n := range names {
+				if h.name == n {
+					o = append(o, h)
+				}
+			}
+		}
+		return o
+	}
+	hls, hls2 := all, pick("html", "c19-ansi-4")
+	if quick {
+		hls, hls2 = pick("html", "ansi", "c19-html-4", "c19-ansi-1"), pick("html", "c19-ansi-4")
+	}
 	r.Sample(map[string]any{"phase": "C", "analyzer": "standard", "document": "<b>, é, xy", "query": "match(é)", "style": "c19-html-4",
 		"oracle": "fragment minus '…', <mark>, escaping is a slice of the stored value; marked span = bytes at a reported location = the term"})
 	if !r.Expired() {
 		t2 := time.Now()
-		c.phaseSearch(analyzers, bx.MemEngines, words, seps, hls, mc.Pick(r, map[string]bool{"standard": true, "c19_camel": true}, nil))
+		c.phaseSearch(analyzers, bx.MemEngines, words, seps, hls, hls2, mc.Pick(r, map[string]bool{"standard": true, "c19_camel": true}, nil))
 		phaseWall["C_highlighting_through_search"] = time.Since(t2).Seconds()
+	}
+	if len(c.searchErrors) > 0 {
+		r.Note("observed_not_asserted:search_errors(engine|analyzer|query)", c.searchErrors)
 	}
 	r.Note("phase_wall_s", phaseWall)
 	c.coll.flush(r)
